@@ -45,7 +45,7 @@ enum {
     OP_NONE = 0, OP_CREATE, OP_LOCK, OP_UNLOCK, OP_WAIT, OP_WAKE, OP_RELOCK, OP_SIGNAL, OP_BCAST,
     OP_KILL, OP_CANCEL, OP_SIGMASK, OP_SIGWAIT, OP_RAISE, OP_TIME, OP_SLEEP, OP_POLL, OP_READ,
     OP_CLOSE, OP_FPUTS, OP_CONNBEGIN, OP_CONNEND, OP_DESTROYBEGIN, OP_DESTROYEND, OP_FWD,
-    OP_RETURN, OP_NKINDS
+    OP_RETURN, OP_JOIN, OP_MEM, OP_NKINDS
 };
 
 /* yield classes */
@@ -56,6 +56,7 @@ enum {
 #define Y_IO    0x10            /* poll read close fputs */
 #define Y_SIG   0x20            /* pthread_kill/cancel/sigmask, sigwait, raise, fwd, creation of wdog/signals thread */
 #define Y_SLEEP 0x40
+#define Y_MEM   0x80            /* loads / stores of `threadcount` (only in the `mem` build flavour, see mem_hooks.c) */
 
 struct op {
     int kind, cls;
@@ -70,6 +71,7 @@ struct op {
 /* called by wrappers and by the stub: publish the current thread's operation, block until the
  * scheduler has performed it; results are in the returned op (ret, err). */
 struct op *sched_do(struct op o);
+void sched_mem(struct op o);    /* like sched_do, but a no-op outside pdsh threads and inside the scheduler */
 long sched_now(void);
 void sched_bug(const char *fmt, ...);
 #endif
